@@ -609,10 +609,11 @@ theorem trunc_unsigned_neg_up (t : IType) (ht : t.signed = false) (hb : 0 < t.bi
         · refine eqS_posInt_neg_false s _ x e (by omega) hx1 hx0 hz' (fun h => lt_trans (hs h) ?_)
           push_cast; linarith
         · rw [IType.wrap_pow ht, eqS_symm]; simpa using hz
+      have hz0 : eqS s ((0 : Int) : K) x e = false := by rw [eqS_symm]; exact hz
       have hd : truncDownM t s tr x e = 2 ^ t.bits - 1 := by
         unfold truncDownM
         simp only [ht, hz, Bool.not_false, Bool.and_false, Bool.false_eq_true, if_false, htr0, hgt, if_true,
-          IType.wrap_neg_one ht, hsame, harith]
+          IType.wrap_neg_one ht, hsame, harith, hz0, decide_true]
       unfold truncUpM
       simp only [hd, neS, Gen.ne, hM, Bool.not_false, if_true, IType.wrap_pow ht]
     · have hd : truncDownM t s tr x e = 0 := by
@@ -681,6 +682,23 @@ example : trunc .absolute false .upward trQ (-4/5) (3/10) = -1 ∧ truncM uint32
 
 
 end rounding
+
+/-- the defect repaired by fixes/C17_round_range_end.patch, on concrete inputs (exact dyadics `m·2^e` of
+    Model/C17/Base.lean): 255.25 rounded to `unsigned char` was 0 and 127.25 rounded to `signed char` was -128 — the
+    unrepaired algorithm stored `upper = lower+1` in the target type and computed both distances from the wrapped-around
+    value.  The repaired one returns 255 and 127. -/
+theorem roundOld_range_end :
+    roundDownOldM uint8 .absolute Dy.trunc (Dy.mk2 1021 (-2)) (Dy.mk2 1 (-10)) = 0 ∧
+    roundM uint8 .absolute .downward Dy.trunc (Dy.mk2 1021 (-2)) (Dy.mk2 1 (-10)) = 255 ∧
+    roundDownOldM int8 .absolute Dy.trunc (Dy.mk2 509 (-2)) (Dy.mk2 1 (-10)) = -128 ∧
+    roundM int8 .absolute .downward Dy.trunc (Dy.mk2 509 (-2)) (Dy.mk2 1 (-10)) = 127 := by decide
+
+-- outside the property: -1/2 truncated upward to `unsigned char` with the relative-strong epsilon 1024 is 1 (`T(lower+1)` =
+-- T(256) is "equal" to -1/2, `return lower+1` converts 256 to 0, `ne(0, val)` holds, `++upper`).  The documented result
+-- is the integer -1 (-1/2 is equal to -1 within that epsilon); `trunc_unsigned_neg_up` excludes the case by its
+-- hypothesis on epsilon, the check prints `unrep` on both sides
+example : truncM uint8 .relativeStrong .upward Dy.trunc (Dy.mk2 (-1) (-1)) (Dy.mk2 1 10) = 1 := by decide
+
 
 /-! ## The functions the driver executes on exact inputs are the generic ones at `ℚ`
 
